@@ -43,7 +43,7 @@ fn strings(alphabet: &[&str], max: usize) -> Vec<String> {
 
 fn containment_keys() -> &'static Vec<Path> {
     static KEYS: std::sync::OnceLock<Vec<Path>> = std::sync::OnceLock::new();
-    KEYS.get_or_init(|| strings(&["a", "b"], 5).iter().map(|k| split(k)).collect())
+    KEYS.get_or_init(|| strings(&["a", "ab"], 5).iter().map(|k| split(k)).collect())
 }
 
 pub fn check_containment(c: &Containment) -> Result<CaseReport, Failure> {
@@ -123,7 +123,7 @@ pub struct SessionCase {
 fn universe() -> &'static Vec<Path> {
     static U: std::sync::OnceLock<Vec<Path>> = std::sync::OnceLock::new();
     U.get_or_init(|| {
-        let mut v: Vec<Path> = strings(&["a", "b", "c"], 4).iter().map(|k| split(k)).collect();
+        let mut v: Vec<Path> = strings(&["a", "ab", "c"], 4).iter().map(|k| split(k)).collect();
         for k in ["$SYS", "$SYS/version", "$SYS/clients", "$SYS/store/mode", "$SYS/clients/x/graveGoods"] {
             v.push(split(k));
         }
@@ -209,7 +209,7 @@ async fn run_session_case(case: &SessionCase) -> Result<CaseReport, Failure> {
 
 async fn drive(case: &SessionCase, ws: &WireServer) -> Result<CaseReport, Failure> {
     let internal = uuid(INTERNAL);
-    for k in ["a", "a/b", "a/b/c", "b", "b/a", "c/c/c", "a/a/a/a"] {
+    for k in ["a", "a/ab", "a/ab/c", "ab", "ab/a", "c/c/c", "a/a/a/a"] {
         ws.server.api.set(k.to_owned(), json!(format!("planted {k}")), internal).await.map_err(|e| Failure::new("c15.setup", "set", e.to_string()))?;
     }
     let mut rep = CaseReport::default();
@@ -339,7 +339,7 @@ pub fn check_session(case: &SessionCase, _kfs: &KnownFindings) -> Result<CaseRep
 }
 
 fn pat() -> BoxedStrategy<String> {
-    (proptest::collection::vec(prop_oneof![3 => Just("a"), 3 => Just("b"), 1 => Just("c"), 2 => Just("?")], 0..=3), 0..3u8)
+    (proptest::collection::vec(prop_oneof![3 => Just("a"), 3 => Just("ab"), 1 => Just("c"), 2 => Just("?")], 0..=3), 0..3u8)
         .prop_map(|(mut v, t)| {
             if t == 0 || v.is_empty() {
                 v.push("#");
@@ -351,7 +351,7 @@ fn pat() -> BoxedStrategy<String> {
 
 fn lit() -> BoxedStrategy<String> {
     prop_oneof![
-        10 => proptest::collection::vec(prop_oneof![3 => Just("a"), 3 => Just("b"), 1 => Just("c")], 1..=3).prop_map(|v| v.join("/")),
+        10 => proptest::collection::vec(prop_oneof![3 => Just("a"), 3 => Just("ab"), 1 => Just("c")], 1..=3).prop_map(|v| v.join("/")),
         1 => Just("$SYS/version".to_owned()),
         1 => Just("$SYS/clients".to_owned()),
     ]
@@ -398,11 +398,11 @@ fn session_case(max: usize) -> BoxedStrategy<SessionCase> {
 
 pub fn run(cfg: &RunCfg) -> i32 {
     let mut check = Check::new(cfg, "exploration");
-    check.assume("'covered' is decided over a finite key universe (all keys over {a,b,c} up to depth 4 plus a few $SYS keys): a request is outside the grant if it selects a universe key that no granted pattern selects; both sides use the most permissive matching relation (K/# also selects K), so known finding D3 cannot raise an alarm here");
+    check.assume("'covered' is decided over a finite key universe (all keys over {a,ab,c} (ab is a string extension of a: segment boundaries matter) up to depth 4 plus a few $SYS keys): a request is outside the grant if it selects a universe key that no granted pattern selects; both sides use the most permissive matching relation (K/# also selects K), so known finding D3 cannot raise an alarm here");
     check.assume("only 'served => covered' and 'refused => err 14 and no effect' are asserted; refusing a covered request is not a violation");
     let kfs = check.kf.clone();
     let depth = cfg.tier.pick(4, 4);
-    let pats = strings(&["a", "b", "?", "#"], depth);
+    let pats = strings(&["a", "ab", "?", "#"], depth);
     let mut pairs = Vec::with_capacity(pats.len() * pats.len());
     for g in &pats {
         for r in &pats {
@@ -413,7 +413,7 @@ pub fn run(cfg: &RunCfg) -> i32 {
     let (agg, v) = run_enumerated(cfg, &pairs, check_containment);
     check.add_part(
         "containment",
-        &format!("all {npairs} (grant, request) pairs of patterns over {{a,b,?,#}} up to depth {depth}: if the authorization matcher accepts the request for the grant, every key over {{a,b}} up to depth 5 selected by the request is selected by the grant; non-trivial = a pattern contains a wildcard; distinct = pair"),
+        &format!("all {npairs} (grant, request) pairs of patterns over {{a,ab,?,#}} up to depth {depth}: if the authorization matcher accepts the request for the grant, every key over {{a,ab}} up to depth 5 selected by the request is selected by the grant; non-trivial = a pattern contains a wildcard; distinct = pair"),
         true,
         agg,
     );
